@@ -174,7 +174,11 @@ impl CodePage {
         if *self == CodePage::UsAscii {
             ascii_decode(bytes)
         } else {
-            self.encoding().decode(bytes).0.into_owned()
+            // (Don't use `Encoding::decode()` here: it sniffs for a byte
+            // order mark, so text that happens to start with the bytes of a
+            // BOM - e.g. "ï»¿" in Windows-1252 - would lose them, or even be
+            // decoded as UTF-16.)
+            self.encoding().decode_without_bom_handling(bytes).0.into_owned()
         }
     }
 
